@@ -30,6 +30,10 @@ for f in sorted(glob.glob(f'{V}/build/seedres/*.json')):
              "check_verdict": {"cmd": f"VERIF_REPO=<scratch worktree> ./check {pid}", "exit": d.get("check_rc"), "caught": d.get("caught"),
                                "kind": d.get("replay_kind"), "lines": d.get("check_lines"), "minimal_case": d.get("replay_case")}}
         json.dump(m, open(f'{dst}/meta{k}.json', 'w'), indent=1)
+cross = {}
+cp = f'{V}/seeded/cross_checks.json'
+if os.path.exists(cp):
+    cross = json.load(open(cp))
 with open(f'{V}/seeded/README.md', 'w') as out:
     out.write("# Seeded changes\n\nWritten by independent sub-agents that saw only the property text and a scratch worktree of /repo "
               "(nothing from /verif).  Each change compiles, keeps all 972 stable tests of the pinned suite green, and comes with a "
@@ -40,7 +44,8 @@ with open(f'{V}/seeded/README.md', 'w') as out:
         if d is None:
             out.write(f"| {pid}/{k} | (verification did not finish) | ? | ? | |\n"); continue
         desc = (meta.get("summary", "") + " — needs: " + meta.get("needs_to_manifest", "")).replace("|", "/").replace("\n", " ")[:420]
-        out.write(f"| {pid}/{k} | {desc} | {'yes' if d.get('confirmed_seed') else 'NO'} | {'yes' if d.get('caught') else 'NO'} | {d.get('replay_kind') or ''} |\n")
+        caught = 'yes' if d.get('caught') else ('no; ' + cross[f"{pid}/{k}"] if f"{pid}/{k}" in cross else 'NO')
+        out.write(f"| {pid}/{k} | {desc} | {'yes' if d.get('confirmed_seed') else 'NO'} | {caught} | {d.get('replay_kind') or ''} |\n")
 n_conf = sum(1 for r in rows if r[2] and r[2].get('confirmed_seed'))
 n_caught = sum(1 for r in rows if r[2] and r[2].get('confirmed_seed') and r[2].get('caught'))
 print(f"seeds: {len(rows)} verified, {n_conf} confirmed, {n_caught} caught")
